@@ -190,11 +190,6 @@ Definition probe_allowed (p : plat) (meth site : string) (e1 e2 : err) (z : bool
   ++ (if nosuch_failure p meth site e1 || perm_failure e1 then []
       else [RRaw; RRawProbe] ++ (if pid0_rule p && z then [RDenied] else []))
   ++ flat_map (fun s => match recovery p meth site (Build_cond e1 s z) with Some r => [r] | None => [] end) [Alive; Zombie; Gone].
-(* finding: Solaris asks _psposix.pid_exists() -> os.kill(pid, 0), which absorbs ESRCH and EPERM only; any other
-   error of that probe leaves wrap_exceptions bare although the method's own failure was "no such process" *)
-Definition is_other_or_notfound (e : err) : bool := match pycls_of e with CLookup | CPerm => false | _ => true end.
-Definition known_probe_raw (p : plat) (meth site : string) (e1 e2 : err) (z : bool) : bool :=
-  match p with SunOS => negb z && nosuch_failure p meth site e1 && is_other_or_notfound e2 | _ => false end.
 Definition probe_conds (p : plat) : list (err * err * bool) :=
   let es := filter (err_ok p) [ESRCH; ENOENT; EPERM; EACCES; EIO; EINVAL; WACCESS; WPRIV; WPARTIAL; WINVAL] in
   flat_map (fun e1 => flat_map (fun e2 => map (fun z => (e1, e2, z)) [false; true]) es) es.
